@@ -186,6 +186,9 @@ def check(ctx):
     obs.append(o5)
     from .c07 import own_id_only
     own_id_only(ctx, o5)
+    obs.append(ctx.shared('c09', 'C09.5', 'C10.6', 'a waiting request is served at the first check at which it fits: the test the scan applies must answer True exactly when every '
+                          'non-zero entry of the request fits its pool (a test that also refuses a zero entry on an over-used pool, or an unknown pool asked for nothing, '
+                          'leaves a satisfiable request waiting for ever)'))
     return obs
 
 
